@@ -97,31 +97,275 @@ theorem scan_append {σ : Type} (step : σ → Byte → Option σ) (s : σ) (a b
         | found j => simp [h2]; omega
         | more u => simp [h2]
 
-theorem tokGo_eq (frags : List Frag) (a : TokArgs) (s : TokSt) (suf pre : List Frag) (h : frags = pre ++ suf) :
-    Iov.tokGo frags a s suf pre.length = match Flat.scan (tokStep a) s suf.flatten with
+/-- how the byte loop of the model reads off the spec's scanner -/
+def outOf : Flat.Scan TokSt → Iov.TokOut
+  | .found i => .found i
+  | .more s => if s.skip then .comment s.quote s.prev else .more s.quote s.prev
+
+theorem outOf_shift (r : Flat.Scan TokSt) :
+    (outOf r).shift = outOf (match r with | .found i => .found (i + 1) | .more t => .more t) := by
+  cases r with
+  | found i => rfl
+  | more s => simp only [outOf]; split <;> rfl
+
+/-- the hand-written byte loop of `mpt_memtok` = the spec's one-character rule iterated -/
+theorem tokStep_mk (a : TokArgs) (q : Option Byte) (prev : Byte) (inC : Bool) (c : Byte) :
+    tokStep a ⟨q, prev, inC⟩ c =
+      (if inC = true then (if (c == 10) = true then some ⟨q, c, false⟩ else some ⟨q, prev, true⟩)
+       else if (!a.esc.isEmpty && q.isSome) = true then some ⟨if (q == some c && prev != 92) = true then none else q, c, false⟩
+       else if (!a.esc.isEmpty && a.esc.contains c) = true then some ⟨some c, prev, false⟩
+       else if (a.com.contains c && isSpace prev) = true then
+         (match a.tok with
+          | some _ => none
+          | none => some ⟨q, prev, true⟩)
+       else
+         (match a.tok with
+          | some t => if t.contains c = true then none else some ⟨q, c, false⟩
+          | none => if (!isSpace c) = true then none else some ⟨q, c, false⟩)) := by
+  cases inC <;> rfl
+
+theorem tokBytes_scan (a : TokArgs) (q : Option Byte) (prev : Byte) (inC : Bool) (bs : List Byte) :
+    Iov.tokBytes a q prev inC bs = outOf (Flat.scan (tokStep a) ⟨q, prev, inC⟩ bs) := by
+  induction bs generalizing q prev inC with
+  | nil => cases inC <;> simp [Iov.tokBytes, Flat.scan, outOf]
+  | cons c cs ih =>
+    -- one step of the spec's scanner, then the rest
+    have hstep : ∀ s', tokStep a ⟨q, prev, inC⟩ c = some s' →
+        outOf (Flat.scan (tokStep a) ⟨q, prev, inC⟩ (c :: cs)) = (outOf (Flat.scan (tokStep a) s' cs)).shift := by
+      intro s' hs
+      simp only [Flat.scan, hs]
+      cases Flat.scan (tokStep a) s' cs with
+      | found i => rfl
+      | more t => simp only [outOf]; split <;> rfl
+    have hfound : tokStep a ⟨q, prev, inC⟩ c = none →
+        outOf (Flat.scan (tokStep a) ⟨q, prev, inC⟩ (c :: cs)) = .found 0 := by
+      intro hs; simp only [Flat.scan, hs]; rfl
+    rw [tokStep_mk] at hstep hfound
+    unfold Iov.tokBytes
+    by_cases hC : inC = true
+    · simp only [hC, if_true] at hstep hfound ⊢
+      by_cases h10 : (c == 10) = true
+      · simp only [h10, if_true] at hstep ⊢
+        rw [hstep _ rfl, ih]
+      · simp only [h10, if_false, Bool.false_eq_true] at hstep ⊢
+        rw [hstep _ rfl, ih]
+    · simp only [hC, if_false, Bool.false_eq_true] at hstep hfound ⊢
+      by_cases h1 : (!a.esc.isEmpty && q.isSome) = true
+      · simp only [h1, if_true] at hstep ⊢
+        rw [hstep _ rfl, ih]
+      · simp only [h1, if_false, Bool.false_eq_true] at hstep hfound ⊢
+        by_cases h2 : (!a.esc.isEmpty && a.esc.contains c) = true
+        · simp only [h2, if_true] at hstep ⊢
+          rw [hstep _ rfl, ih]
+        · simp only [h2, if_false, Bool.false_eq_true] at hstep hfound ⊢
+          by_cases h3 : (a.com.contains c && isSpace prev) = true
+          · simp only [h3, if_true] at hstep hfound ⊢
+            cases ht : a.tok with
+            | some t => simp only [ht] at hfound ⊢; rw [hfound (by first | rfl | trivial)]
+            | none => simp only [ht] at hstep ⊢; rw [hstep _ rfl, ih]
+          · simp only [h3, if_false, Bool.false_eq_true] at hstep hfound ⊢
+            cases ht : a.tok with
+            | some t =>
+              simp only [ht] at hstep hfound ⊢
+              by_cases h4 : t.contains c = true
+              · simp only [h4, if_true] at hfound ⊢; rw [hfound (by first | rfl | trivial)]
+              · simp only [h4, if_false, Bool.false_eq_true] at hstep ⊢; rw [hstep _ rfl, ih]
+            | none =>
+              simp only [ht] at hstep hfound ⊢
+              by_cases h4 : (!isSpace c) = true
+              · simp only [h4, if_true] at hfound ⊢; rw [hfound (by first | rfl | trivial)]
+              · simp only [h4, if_false, Bool.false_eq_true] at hstep ⊢; rw [hstep _ rfl, ih]
+
+theorem tokGo_eq (frags : List Frag) (a : TokArgs) (inC : Bool) (q : Option Byte) (prev : Byte) (suf pre : List Frag)
+    (h : frags = pre ++ suf) :
+    Iov.tokGo frags a inC q prev suf pre.length = match Flat.scan (tokStep a) ⟨q, prev, inC⟩ suf.flatten with
       | .found i => some (i + pre.flatten.length)
       | .more _ => none := by
-  induction suf generalizing pre s with
-  | nil => simp [Iov.tokGo, Flat.scan]
+  induction suf generalizing pre inC q prev with
+  | nil => cases inC <;> simp [Iov.tokGo, Flat.scan]
   | cons f fs ih =>
-    unfold Iov.tokGo
     have htake : frags.take pre.length = pre := by rw [h]; simp
+    have hnext := fun (b : Bool) (q' : Option Byte) (p' : Byte) => ih b q' p' (pre ++ [f]) (by simp [h])
+    simp only [List.length_append, List.length_cons, List.length_nil, Nat.zero_add] at hnext
     rw [List.flatten_cons, scan_append]
-    cases hf : Flat.scan (tokStep a) s f with
-    | found pos => simp [htake, sumLen_eq]
-    | more s' =>
-      have := ih s' (pre ++ [f]) (by simp [h])
-      simp only [List.length_append, List.length_cons, List.length_nil, Nat.zero_add] at this
-      simp only [this]
-      cases h2 : Flat.scan (tokStep a) s' fs.flatten with
-      | found j => simp; omega
-      | more u => simp
+    cases inC with
+    | false =>
+      unfold Iov.tokGo
+      rw [tokBytes_scan]
+      cases hf : Flat.scan (tokStep a) ⟨q, prev, false⟩ f with
+      | found pos => simp [outOf, htake, sumLen_eq]
+      | more s =>
+        simp only [outOf]
+        cases hs : s.skip with
+        | false =>
+          simp only [Bool.false_eq_true, if_false, hnext]
+          have : (⟨s.quote, s.prev, false⟩ : TokSt) = s := by cases s; simp_all
+          rw [this]
+          cases Flat.scan (tokStep a) s fs.flatten with
+          | found j => first | (simp; omega) | simp
+          | more u => simp
+        | true =>
+          simp only [if_true, hnext]
+          have : (⟨s.quote, s.prev, true⟩ : TokSt) = s := by cases s; simp_all
+          rw [this]
+          cases Flat.scan (tokStep a) s fs.flatten with
+          | found j => first | (simp; omega) | simp
+          | more u => simp
+    | true =>
+      cases f with
+      | nil =>
+        unfold Iov.tokGo
+        simp only [Flat.scan, List.length_nil, Nat.zero_add, hnext]
+        cases Flat.scan (tokStep a) ⟨q, prev, true⟩ fs.flatten with
+        | found j => simp
+        | more u => simp
+      | cons c cs =>
+        unfold Iov.tokGo
+        -- first byte of the new part on its own, then the inner loop
+        have hfirst : (if (c == 10) = true then Iov.tokBytes a q c false cs else Iov.tokBytes a q prev true cs) =
+            outOf (match tokStep a ⟨q, prev, true⟩ c with
+              | none => .found 0
+              | some s' => Flat.scan (tokStep a) s' cs) := by
+          by_cases h10 : (c == 10) = true
+          · simp only [h10, if_true, tokStep, tokBytes_scan]
+          · simp only [h10, Bool.false_eq_true, if_false, tokStep, if_true, tokBytes_scan]
+        rw [hfirst]
+        simp only [Flat.scan]
+        have hsome : ∃ s', tokStep a ⟨q, prev, true⟩ c = some s' := by
+          by_cases h10 : (c == 10) = true <;> simp [tokStep, h10]
+        obtain ⟨s', hs'⟩ := hsome
+        rw [hs']
+        simp only []
+        cases hf : Flat.scan (tokStep a) s' cs with
+        | found pos => first | (simp [outOf, htake, sumLen_eq]; omega) | simp [outOf, htake, sumLen_eq]
+        | more s =>
+          simp only [outOf]
+          cases hs : s.skip with
+          | false =>
+            simp only [Bool.false_eq_true, if_false, hnext]
+            have : (⟨s.quote, s.prev, false⟩ : TokSt) = s := by cases s; simp_all
+            rw [this]
+            cases Flat.scan (tokStep a) s fs.flatten with
+            | found j => first | (simp; omega) | simp
+            | more u => simp
+          | true =>
+            simp only [if_true, hnext]
+            have : (⟨s.quote, s.prev, true⟩ : TokSt) = s := by cases s; simp_all
+            rw [this]
+            cases Flat.scan (tokStep a) s fs.flatten with
+            | found j => first | (simp; omega) | simp
+            | more u => simp
 
 theorem memtok_eq (frags : List Frag) (a : TokArgs) : Iov.memtok frags a = Flat.tok frags.flatten a := by
-  have := tokGo_eq frags a {} frags [] (by simp)
+  have := tokGo_eq frags a false none 32 frags [] (by simp)
   simp only [List.length_nil, List.flatten_nil, Nat.add_zero] at this
   simp only [Iov.memtok, Flat.tok, this]
+  have : (⟨none, 32, false⟩ : TokSt) = {} := rfl
+  rw [this]
   cases Flat.scan (tokStep a) {} frags.flatten <;> rfl
+
+/- ---------------------------------------------------------------- nextSpace of message_argv.c -/
+
+theorem nsBytes_scan (q : Option Byte) (prev : Byte) (bs : List Byte) :
+    Iov.nsBytes q prev bs = outOf (Flat.scan (tokStep wsTok) ⟨q, prev, false⟩ bs) := by
+  induction bs generalizing q prev with
+  | nil => simp [Iov.nsBytes, Flat.scan, outOf]
+  | cons c cs ih =>
+    have hstep : ∀ s', tokStep wsTok ⟨q, prev, false⟩ c = some s' →
+        outOf (Flat.scan (tokStep wsTok) ⟨q, prev, false⟩ (c :: cs)) = (outOf (Flat.scan (tokStep wsTok) s' cs)).shift := by
+      intro s' hs
+      simp only [Flat.scan, hs]
+      cases Flat.scan (tokStep wsTok) s' cs with
+      | found i => rfl
+      | more t => simp only [outOf]; split <;> rfl
+    have hfound : tokStep wsTok ⟨q, prev, false⟩ c = none →
+        outOf (Flat.scan (tokStep wsTok) ⟨q, prev, false⟩ (c :: cs)) = .found 0 := by
+      intro hs; simp only [Flat.scan, hs]; rfl
+    rw [tokStep_mk] at hstep hfound
+    have hesc : (!wsTok.esc.isEmpty) = true := rfl
+    have hcom : wsTok.com.contains c = false := rfl
+    have htok : wsTok.tok = some [9, 32, 10, 13, 11] := rfl
+    have hq : wsTok.esc.contains c = ([39, 34] : List Byte).contains c := rfl
+    simp only [Bool.false_eq_true, if_false, hesc, hcom, htok, hq, Bool.true_and, Bool.false_and] at hstep hfound
+    unfold Iov.nsBytes
+    cases q with
+    | some m =>
+      simp only [Option.isSome_some, if_true] at hstep ⊢
+      rw [hstep _ rfl, ih]
+    | none =>
+      simp only [Option.isSome_none, Bool.false_eq_true, if_false] at hstep hfound ⊢
+      by_cases h2 : ([39, 34] : List Byte).contains c = true
+      · simp only [h2, if_true] at hstep ⊢
+        rw [hstep _ rfl, ih]
+      · simp only [h2, if_false, Bool.false_eq_true] at hstep hfound ⊢
+        by_cases h4 : ([9, 32, 10, 13, 11] : List Byte).contains c = true
+        · simp only [h4, if_true] at hfound ⊢
+          rw [hfound (by first | rfl | trivial)]
+        · simp only [h4, if_false, Bool.false_eq_true] at hstep ⊢
+          rw [hstep _ rfl, ih]
+
+/-- with a token set the scanner never enters the comment mode -/
+theorem ws_skip_false (bs : List Byte) (q : Option Byte) (prev : Byte) (t : TokSt)
+    (h : Flat.scan (tokStep wsTok) ⟨q, prev, false⟩ bs = .more t) : t.skip = false := by
+  have := nsBytes_scan q prev bs
+  rw [h] at this
+  -- nsBytes never answers `comment`
+  have hno : ∀ (bs : List Byte) (q : Option Byte) (prev : Byte) (a : Option Byte) (b : Byte), Iov.nsBytes q prev bs ≠ .comment a b := by
+    intro bs
+    induction bs with
+    | nil => intro q prev a b; simp [Iov.nsBytes]
+    | cons c cs ih =>
+      intro q prev a b
+      unfold Iov.nsBytes
+      have hsh : ∀ (x : Iov.TokOut), x ≠ .comment a b → x.shift ≠ .comment a b := by
+        intro x hx; cases x <;> simp_all [Iov.TokOut.shift]
+      cases q with
+      | some m => exact hsh _ (ih _ _ a b)
+      | none =>
+        simp only []
+        split
+        · exact hsh _ (ih _ _ a b)
+        · split
+          · simp
+          · exact hsh _ (ih _ _ a b)
+  cases hs : t.skip with
+  | false => rfl
+  | true => simp only [outOf, hs, if_true] at this; exact absurd this (hno bs q prev _ _)
+
+theorem nsGo_eq (q : Option Byte) (prev : Byte) (curr : Frag) (cont : List Frag) (pos : Nat) :
+    Iov.nsGo q prev curr cont pos = match Flat.scan (tokStep wsTok) ⟨q, prev, false⟩ (curr ++ cont.flatten) with
+      | .found i => some (pos + i)
+      | .more _ => none := by
+  induction cont generalizing q prev curr pos with
+  | nil =>
+    unfold Iov.nsGo
+    rw [nsBytes_scan]
+    simp only [List.flatten_nil, List.append_nil]
+    cases hf : Flat.scan (tokStep wsTok) ⟨q, prev, false⟩ curr with
+    | found i => simp [outOf]
+    | more s => cases hs : s.skip <;> simp [outOf, hs]
+  | cons f fs ih =>
+    unfold Iov.nsGo
+    rw [nsBytes_scan, List.flatten_cons, scan_append]
+    cases hf : Flat.scan (tokStep wsTok) ⟨q, prev, false⟩ curr with
+    | found i => simp [outOf]
+    | more s =>
+      have hskip : s.skip = false := ws_skip_false curr q prev s hf
+      simp only [outOf, hskip, Bool.false_eq_true, if_false]
+      rw [ih]
+      have : (⟨s.quote, s.prev, false⟩ : TokSt) = s := by cases s; simp_all
+      rw [this]
+      cases Flat.scan (tokStep wsTok) s (f ++ fs.flatten) with
+      | found j => first | (simp; omega) | simp
+      | more u => simp
+
+theorem nextSpace_eq (curr : Frag) (cont : List Frag) :
+    Iov.nextSpace curr cont = Flat.tok (curr ++ cont.flatten) wsTok := by
+  unfold Iov.nextSpace Flat.tok
+  rw [nsGo_eq]
+  have : (⟨none, 32, false⟩ : TokSt) = {} := rfl
+  rw [this]
+  cases Flat.scan (tokStep wsTok) {} (curr ++ cont.flatten) <;> simp
 
 /- ---------------------------------------------------------------- read -/
 
